@@ -95,13 +95,14 @@ type EnvCfg struct {
 	UnstakingBlocks  int64            `json:"unstaking_blocks"` // unstaking time in block intervals
 	MinProofs        int64            `json:"min_proofs"`
 	StateCache       bool             `json:"state_cache"`
-	Genesis          string           `json:"genesis"`                // named genesis variant
-	Warmup           int              `json:"warmup"`                 // blocks executed before the explored history (the last one carries Setup)
-	Setup            []TxSpec         `json:"setup,omitempty"`        // transactions of the last warm-up block; all must succeed
-	Proposer         string           `json:"proposer,omitempty"`     // default block proposer (N1)
-	LocalNode        string           `json:"local_node,omitempty"`   // servicer identity of this process (default N1)
-	BaseRelays       int64            `json:"base_relays,omitempty"`  // application BaseRelaysPerPOKT (default: the module default, 100)
-	GenesisJSON      string           `json:"genesis_json,omitempty"` // start from this (exported) application state instead of the built-in genesis
+	Genesis          string           `json:"genesis"`                 // named genesis variant
+	Warmup           int              `json:"warmup"`                  // blocks executed before the explored history (the last one carries Setup)
+	Setup            []TxSpec         `json:"setup,omitempty"`         // transactions of the last warm-up block; all must succeed
+	Proposer         string           `json:"proposer,omitempty"`      // default block proposer (N1)
+	LocalNode        string           `json:"local_node,omitempty"`    // servicer identity of this process (default N1)
+	NoVoteDelay      bool             `json:"no_vote_delay,omitempty"` // votes come from the set as of the previous EndBlock (no two-block delay)
+	BaseRelays       int64            `json:"base_relays,omitempty"`   // application BaseRelaysPerPOKT (default: the module default, 100)
+	GenesisJSON      string           `json:"genesis_json,omitempty"`  // start from this (exported) application state instead of the built-in genesis
 }
 
 func defaultEnv() EnvCfg {
@@ -470,23 +471,24 @@ func (l bufLogger) With(kv ...interface{}) log.Logger { return l }
 
 // replica: one running application instance plus what Tendermint would keep for it.
 type replica struct {
-	env     EnvCfg
-	db      *dbm.MemDB
-	bsdb    *dbm.MemDB
-	txdb    *dbm.MemDB
-	app     *app.PocketCoreApp
-	bs      *tmStore.BlockStore
-	txi     *sdk.TransactionIndexer
-	logbuf  *bytes.Buffer
-	height  int64
-	time    time.Time
-	lastID  tmtypes.BlockID
-	appHash []byte
-	valset  map[string]int64           // consensus set folded from InitChain/EndBlock updates: hex(pubkey) -> power
-	valHist map[int64]map[string]int64 // the folded set as it stood after each block (evidence carries the power at the infraction height)
-	valAddr map[string]string
-	results []BlockRes
-	genesis app.GenesisState
+	env      EnvCfg
+	db       *dbm.MemDB
+	bsdb     *dbm.MemDB
+	txdb     *dbm.MemDB
+	app      *app.PocketCoreApp
+	bs       *tmStore.BlockStore
+	txi      *sdk.TransactionIndexer
+	logbuf   *bytes.Buffer
+	height   int64
+	time     time.Time
+	lastID   tmtypes.BlockID
+	appHash  []byte
+	valset   map[string]int64           // consensus set folded from InitChain/EndBlock updates: hex(pubkey) -> power
+	valHist  map[int64]map[string]int64 // the folded set as it stood after each block (evidence carries the power at the infraction height)
+	valHist0 map[string]int64           // the set InitChain returned
+	valAddr  map[string]string
+	results  []BlockRes
+	genesis  app.GenesisState
 	// successful plain sends addressed to a module account (by module name): "donations" nobody staked
 	donated map[string]int64
 	mon     map[string]map[string]interface{}
@@ -566,6 +568,10 @@ func (r *replica) initChain() {
 	cp := &abci.ConsensusParams{Block: &abci.BlockParams{MaxBytes: 4000000, MaxGas: -1}, Evidence: &abci.EvidenceParams{MaxAge: 1000000}, Validator: &abci.ValidatorParams{PubKeyTypes: []string{"ed25519"}}}
 	res := r.app.InitChain(abci.RequestInitChain{ChainId: chainID, Time: chainT0, ConsensusParams: cp})
 	r.foldValUpdates(res.Validators)
+	r.valHist0 = map[string]int64{}
+	for k, v := range r.valset {
+		r.valHist0[k] = v
+	}
 	// Parameters introduced by later upgrades are not written at genesis (height 0): on a real chain the
 	// activation blocks wrote them. A chain that starts above those heights gets them here, with the genesis values.
 	if r.env.BaseHeight > 0 && r.env.FeatureHeight <= r.env.BaseHeight {
@@ -583,6 +589,33 @@ func (r *replica) initChain() {
 			pk.SetParams(ctx, pg.Params)
 		}
 	}
+}
+
+// votingSet: the validator set that signed block h-1 (see runBlock).
+func (r *replica) votingSet(h int64) map[string]int64 {
+	if r.env.NoVoteDelay {
+		return r.valset
+	}
+	for k := h - 3; k >= r.env.BaseHeight; k-- {
+		if hs, ok := r.valHist[k]; ok {
+			return hs
+		}
+	}
+	// the chain is younger than the delay: the explored history starts on a chain that is taken to have run with
+	// its first recorded set (the one after the setup block) for a while
+	first := int64(-1)
+	for k := range r.valHist {
+		if first < 0 || k < first {
+			first = k
+		}
+	}
+	if first >= 0 {
+		return r.valHist[first]
+	}
+	if r.valHist0 != nil {
+		return r.valHist0
+	}
+	return r.valset
 }
 
 func (r *replica) foldValUpdates(ups []abci.ValidatorUpdate) []string {
@@ -670,10 +703,13 @@ func (r *replica) runBlock(b BlockSpec) BlockRes {
 	parts := block.MakePartSet(65536)
 	r.bs.SaveBlock(block, parts, &tmtypes.Commit{})
 	header := tmtypes.TM2PB.Header(&block.Header)
-	// votes of the consensus set on the previous block
+	// votes on the previous block, by the set that signed it: validator updates returned by EndBlock(H) take effect
+	// at H+2 in Tendermint, so block h-1 was signed by the set folded through EndBlock(h-3). A node jailed or
+	// unstaked in block H is therefore still listed (and still counted as present or absent) in blocks H+1 and H+2.
+	voting := r.votingSet(h)
 	var votes []abci.VoteInfo
 	var vkeys []string
-	for k := range r.valset {
+	for k := range voting {
 		vkeys = append(vkeys, k)
 	}
 	sort.Strings(vkeys)
@@ -687,7 +723,7 @@ func (r *replica) runBlock(b BlockSpec) BlockRes {
 			}
 		}
 		edpk, _ := pcrypto.NewPublicKeyBz(pk)
-		votes = append(votes, abci.VoteInfo{Validator: abci.Validator{Address: edpk.Address(), Power: r.valset[k]}, SignedLastBlock: signed})
+		votes = append(votes, abci.VoteInfo{Validator: abci.Validator{Address: edpk.Address(), Power: voting[k]}, SignedLastBlock: signed})
 	}
 	r.inBlock = true
 	r.app.BeginBlock(abci.RequestBeginBlock{Hash: block.Hash(), Header: header, LastCommitInfo: abci.LastCommitInfo{Votes: votes}, ByzantineValidators: byz})
